@@ -222,7 +222,7 @@ func TestC13(t *testing.T) {
 		variant := ev.ShardNo()*runs + run
 		u := newCDP(t, cdpOpts{variant: variant})
 		rnd := rng("C13", run)
-		cfg := cdpCfg{priceMoves: true, bids: true, lockers: true, unsolicited: true, liquidateMsg: true, reserve: variant%2 == 1}
+		cfg := cdpCfg{priceMoves: true, bids: true, lockers: true, unsolicited: true, liquidateMsg: true, reserve: variant%2 == 1, govChanges: variant%3 == 2}
 		r := newCdpRunner(u, rnd, rec, cfg, newC13Mon(u, rec))
 		r.run(cdpSteps())
 		if run == 0 {
